@@ -471,14 +471,15 @@ fn wire_run(c: &WireCase) -> Result<WireOutcome, BedErr> {
             }
             macro_rules! close {
                 ($reset:expr) => {{
-                    if $reset {
-                        let _ = p.s.set_linger(Some(Duration::from_secs(0)));
-                    }
                     p.poll_in();
                     while let Some(f) = p.deframer.next(2) {
                         frames.push(f);
                     }
-                    drop(p);
+                    if $reset {
+                        drop(p);
+                    } else {
+                        p.close_gracefully();
+                    }
                     return (frames, "closed".to_string());
                 }};
             }
